@@ -130,8 +130,8 @@ def reduce(a, dim, keepdims, kind):
     out = _like(shape, a)
     red_ext = [a.shape[i] for i in ds]
     count = int(np.prod(red_ext)) if ds else 1
-    if count == 0:
-        raise Reject("reduction over an empty extent")
+    if count == 0 and kind != "sum":
+        raise Reject("mean / max / min over an empty extent (no defined value)")       # the empty sum is 0
     for idx in _it(shape):
         if keepdims:
             fixed = {i: idx[i] for i in keep}
